@@ -58,6 +58,9 @@ struct FnDir {
     /// `@@inline_option map`: also `opt.map(|p| body)` -> `match opt { Some(p) => Some(body), None => None }`
     /// (opt-in: `.map` is also a method of `Result` and of iterators, where the match would not type-check)
     inline_option_map: bool,
+    /// E23 `@@strslice`: `&BASE[a..b]` (a reference to a range index) -> `vx_substr(&BASE, a, b)`, a
+    /// declared stand-in of the unit (Verus has no string slicing); BASE is kept as written
+    strslice: bool,
     /// `@@tail name`: the tail expression of the function is bound (`let name = <tail>;`), the
     /// `@@post` text follows, then `name` is the new tail — so that proof text can follow the result
     tail: Option<String>,
@@ -324,6 +327,7 @@ fn parse_template(path: &Path, nodes: &mut Vec<Node>) {
                             d.letargs.push((m, n, t));
                         }
                         "viter" => d.viter = true,
+                        "strslice" => d.strslice = true,
                         "inline_or_insert_with" => d.inline_entry = true,
                         "inline_option" => { d.inline_option = true; if rest.split_whitespace().any(|w| w == "map") { d.inline_option_map = true; } }
                         "inline_then" => d.inline_then.push(rest.parse().unwrap_or_else(|_| die(&format!("{sctx}: @@inline_then needs closure ordinal")))),
@@ -1084,6 +1088,19 @@ impl<'a, 'ast> Visit<'ast> for Ed<'a> {
                         self.push(rr.end, ar.start, format!(";\n        let {an} = "), "E19-receiver-let-bound", true);
                         self.push(ar.end, es.end, format!(";\n{}\n        {rname}.{m}({an}) }})", text.trim_end()), "E19-receiver-let-bound", true);
                     }
+                    (Some(an), k) if k >= 2 && e.args.iter().take(k - 1).all(|a| matches!(a, syn::Expr::Path(_))) => {
+                        // several arguments, all but the last plain paths (no evaluation effects): the LAST
+                        // argument is let-bound: `{ let r = recv; let a = last; <text> r.m(p0, .., a) }`
+                        let first = e.args[0].span().byte_range();
+                        let prev = e.args[k - 2].span().byte_range();
+                        let ar = e.args[k - 1].span().byte_range();
+                        let earlier = self.src[first.start..prev.end].to_string();
+                        self.push(rr.end, ar.start, format!(";\n        let {an} = "), "E19-receiver-let-bound", true);
+                        self.push(ar.end, es.end, format!(";\n{}\n        {rname}.{m}({earlier}, {an}) }})", text.trim_end()), "E19-receiver-let-bound", true);
+                        self.visit_expr(&e.receiver);
+                        self.visit_expr(&e.args[k - 1]);
+                        return;
+                    }
                     _ => {
                         self.push(rr.end, ms, format!(";\n{}\n        {rname}.", text.trim_end()), "E19-receiver-let-bound", true);
                         self.push(es.end, es.end, " })", "E19-receiver-let-bound", false);
@@ -1120,6 +1137,30 @@ impl<'a, 'ast> Visit<'ast> for Ed<'a> {
             }
         }
         visit::visit_expr_method_call(self, e);
+    }
+    fn visit_expr_reference(&mut self, e: &'ast syn::ExprReference) {
+        // E23: `&BASE[a..b]` -> `vx_substr(&BASE, a, b)`
+        if self.dir.strslice && e.mutability.is_none() {
+            if let syn::Expr::Index(ix) = &*e.expr {
+                if let syn::Expr::Range(rg) = &*ix.index {
+                    if let (Some(a), Some(b), syn::RangeLimits::HalfOpen(_)) = (&rg.start, &rg.end, &rg.limits) {
+                        let es = e.span().byte_range();
+                        let bs = ix.expr.span().byte_range();
+                        let ra = a.span().byte_range();
+                        let rb = b.span().byte_range();
+                        self.push(es.start, bs.start, "vx_substr(&", "E23-string-slice-as-declared-stand-in", false);
+                        self.push(bs.end, ra.start, ", ", "E23-string-slice-as-declared-stand-in", false);
+                        self.push(ra.end, rb.start, ", ", "E23-string-slice-as-declared-stand-in", false);
+                        self.push(rb.end, es.end, ")", "E23-string-slice-as-declared-stand-in", false);
+                        self.visit_expr(&ix.expr);
+                        self.visit_expr(a);
+                        self.visit_expr(b);
+                        return;
+                    }
+                }
+            }
+        }
+        visit::visit_expr_reference(self, e);
     }
     fn visit_expr_binary(&mut self, e: &'ast syn::ExprBinary) {
         if self.dir.boolops {
